@@ -18,6 +18,10 @@ var CSSValuePool = []string{
 	"matrix(1,2,3,4,5,6)", "matrix(1, 2, 3, 4, 5, 6)", "translate(1px,2px)", "scale(2)", "rotate(90)", "rotatex(90)", "rotate3d(1,0.5,1.0,90)", "skew(1px)", "skewx(1px,2px)", "perspective(1px)",
 	"rect(1px,2px,3px,4px)", "rect(1px, 2px, 3px, 4px)", "span 2", "digits 2", "\"a\"", "'a'", "'«' '»'", "\"«\" \"»\"", "all", "width", "width, height", "a,b",
 	"1 2", "1px 2px", "1px 2px 3px 4px", "1px 2px 3px 4px 5px", "left top", "center center", "10px 10px", "1/2", "1 / 2", "/", "row dense", "repeat-x", "border-box",
+	// FindString / ReplaceAll material: matches at the start, in the middle, repeated, adjacent, with what is left over clean or not
+	"drop-shadow(1px 1px) red", "drop-shadow(1px 1px)red)", "reddrop-shadow(1px 1px))", "drop-shadow(1px 1px)drop-shadow(2px 2px))", "drop-shadow(1px 1px))", "drop-shadow(1px 1px 1px 1px)#fff)",
+	"translate(1px,2px", "1pxtranslatex(", "translatex(translatey(1px)", "scale(scale(1px,2px)", "translate(1px,<)", "translate3d(1px,2px,3px)", "scalez(1px))", "translatey()",
+	"skew(1px,2px", "skewx(skewy(1px)", "1pxskewy(", "skew(1px;2px)", "perspective(perspective(1px)", "1perspective(px)", "perspective(1px))", "perspective()", "é translate(1px)", "translate(1px)\xc3",
 	"", " ", "  ", ",", ";", "<", ">", "<script>", "0<script>", "\\", "\\72 ed", "@import", "expression(alert(1))", "javascript:alert(1)", "(", ")", "x(", "1.0<", "1x0", "é", "\xff", "ſ", "K",
 	"1px solid red", "thin dotted #fff", "bold 12px/14px serif", "italic bold 1em arial", "x 1s ease 2s 3 normal both running", "red url(http://a.b/c.png) no-repeat left top",
 }
